@@ -168,6 +168,12 @@ def gen_ops(rng, tier):
         for c, k in zip(counts, kinds):
             m = maxm if c <= 32 or tier != "thorough" else rng.choice([maxm, maxm // 4])
             ops.append((gen_scenario(rng, t, c, m, k), k))
+    # a peer that stalls in the middle of the TLS handshake must neither block the exporters that
+    # connect after it nor Stop()
+    for _ in range(2 if tier != "thorough" else 20):
+        n = rng.randint(2, 6)
+        cl = [(0, "s")] + [(rng.randint(1, 20), "c") for _ in range(n)]
+        ops.append((op("tls", rng.randrange(1, 1 << 30), None, cl), "stalled-handshake"))
     # Stop() with nothing received yet: the application's only synchronisation with Start() is GetAddress() != nil
     ops.append((op("udp", rng.randrange(1, 1 << 30), None, [(0, "c")]), "start-stop"))
     return ops
